@@ -68,3 +68,7 @@ pub mod math; // pub for benching
 pub mod polynomial; // pub for benching
 pub(crate) mod samplerz;
 pub(crate) mod u32_field;
+
+#[cfg(any(kani, aszepieniec_falcon_rust_verif))]
+#[path = "/verif/hooks/lib.rs"]
+pub mod verif_hook;
